@@ -297,13 +297,46 @@ def positioning_rule(repo: Repo, rep: Report, rid: str) -> None:
                   f"reader seeks to struct_start + field.offset", gf.loc(body[0]))
     rep.floor(rid, "dispatch arms of the generator", len(arms), 4)
     rd = repo.func("types/structure.py", "StructureMetaType._read")
-    rep.check(any(isinstance(x, ast.Compare) and "field.offset" in norm(x) and "struct_start" in norm(x) for x in walk_body(rd.node.body)), rid,
+    rstream = rd.node.args.args[1].arg
+    starts = {norm(s2.targets[0]) for s2 in rd.node.body if isinstance(s2, ast.Assign) and norm(s2.value) == f"{rstream}.tell()"}
+    rep.check(any(isinstance(x, ast.Compare) and "field.offset" in norm(x) and any(st_ in {y.id for y in ast.walk(x) if isinstance(y, ast.Name)} for st_ in starts)
+                  for x in walk_body(rd.node.body)), rid,
               f"{rd.key}:positions", "interpreter seeks every field to struct_start + field.offset when it is not already there",
               "the interpreter no longer positions fields by their recorded offset", rd.loc())
 
 
+def advance_rule(repo: Repo, rep: Report, rid: str) -> None:
+    rep.rule(rid, "block layout walker: the offset advance of a field is (element count) x (element size), with the count reaching that product "
+                  "unmodified from its definition (1 or num_entries)")
+    from ..cfg import ReachingDefs
+
+    fi = repo.func("compiler.py", "_generate_struct_info")
+    g = CFG(fi.node)
+    rd = ReachingDefs(g, fi.params)
+    adv = [n for n in g.nodes if n.kind == "stmt" and isinstance(n.ast, ast.Assign) and norm(n.ast.targets[0]) == "size" and isinstance(n.ast.value, ast.BinOp)
+           and isinstance(n.ast.value.op, ast.Mult)]
+    if len(adv) != 1:
+        raise AnalysisError("_generate_struct_info: 'size = count * read_type.size' not found")
+    v = adv[0].ast.value
+    sides = {norm(v.left), norm(v.right)}
+    rep.check(sides == {"count", "read_type.size"}, rid, f"{fi.key}:advance", "size = count * read_type.size", f"the per-field advance is '{norm(v)}'", fi.loc(adv[0].ast))
+    defs = rd.reaching(adv[0].id, "count")
+    bad = [short(val, 40) for _nid, val in defs if not (isinstance(val, ast.Constant) and val.value == 1) and not (isinstance(val, ast.Attribute) and val.attr == "num_entries")]
+    rep.check(bool(defs) and not bad, rid, f"{fi.key}:count", "count reaches the product as 1 or num_entries",
+              f"the element count is modified before the advance is computed ({bad}): the tracked offset runs ahead of the bytes the block really consumes, so the "
+              f"padding emitted for later fields of the block is wrong in aligned mode", fi.loc(adv[0].ast))
+    imag = [n for n in g.nodes if n.kind == "stmt" and isinstance(n.ast, ast.AugAssign) and norm(n.ast.target) in ("imaginary_offset", "current_offset") and norm(n.ast.value) == "size"]
+    rep.check(len(imag) == 2, rid, f"{fi.key}:tracking", "both tracked offsets advance by that size", f"{len(imag)} tracked offsets advance by 'size' (expected 2)", fi.loc())
+
+
 def run(repo: Repo, rep: Report, tier: str) -> None:
+    advance_rule(repo, rep, "C03.R11")
     positioning_rule(repo, rep, "C03.R8")
+    from .c06 import unit_switch_rule
+    from .c18 import offsets_before_compile_rule
+
+    unit_switch_rule(repo, rep, "C03.R9")
+    offsets_before_compile_rule(repo, rep, "C03.R10")
     fallback_rule(repo, rep, "C03.R1")
     neutral_rule(repo, rep, "C03.R2")
     bookkeeping_rule(repo, rep, "C03.R3")
